@@ -35,14 +35,18 @@ def compose(scripts, cache_vals, limits):
     """Hand composition through the public API; the interpreter's own control
     residue is removed between scripts."""
     mi, ms, cl = limits
-    cache_vals = {k: v for k, v in cache_vals.items() if k != 'returned'}     # the marker is not an input
+    had_marker_key = 'returned' in cache_vals
     try:
         tape, stack, cache = F.run_script(scripts[0], cache_vals, stack_max_items=mi, stack_max_item_size=ms,
                                           callstack_limit=cl)
         if not tape.has_terminated():
             return False
         for s in scripts[1:]:
-            cache.pop('returned', None)
+            # the interpreter's RETURN marker (an attribute of the stack; a str cache key in older trees) is not carried over
+            if hasattr(stack, 'returned'):
+                stack.returned = False
+            elif not had_marker_key:
+                cache.pop('returned', None)
             t2 = Cl.Tape(s, callstack_limit=cl, callstack_count=tape.callstack_count, definitions=tape.definitions)
             t2.contracts = tape.contracts
             t2.plugins = tape.plugins
@@ -62,7 +66,7 @@ def ref_verdict(scripts, cache_vals, limits):
     definition table and call budget; a script's own RETURN ends that script only. -> True / False / None (the
     reference stops at something the specification leaves open)"""
     cache = {'timestamp': 1_700_000_000}
-    cache.update({k: copy.deepcopy(v) for k, v in cache_vals.items() if k != 'returned'})
+    cache.update({k: copy.deepcopy(v) for k, v in cache_vals.items()})
     r = refvm.Ref(cache, tuple(limits), int_enc=F.int_to_bytes, now=1_700_000_000, token_bytes=env.DetRandom(b'c01'), contracts={})
     defs = {}
     try:
@@ -111,8 +115,9 @@ def evaluate(scripts, cache_vals, limits, sentinel_ok):
             if model is not None and model != got:
                 fails.append(('model/%s' % ('authorises-but-the-specification-rejects' if got else 'rejects-but-the-specification-authorises'),
                               '%s got %r' % ([s.hex()[:60] for s in scripts], got)))
-            # a stale RETURN marker in the initial cache (e.g. the cache handed back by an earlier run_script) is not an input
-            if 'returned' not in cache_vals:
+            # a 'returned' entry in the initial cache (the interpreter's RETURN marker used to live there: the cache handed back by an
+            # earlier run_script carried it) must not end any script early
+            if 'returned' not in cache_vals and not any(b'returned' in sc for sc in scripts):
                 try:
                     if _auth(scripts, {**cache_vals, 'returned': True}, limits) != got:
                         fails.append(('marker/initial-cache-marker-changes-the-verdict', '%s got %r' % ([s.hex()[:60] for s in scripts], got)))
